@@ -558,6 +558,11 @@ def run_discipline_like(ctx, d, inputs, label, iterative, cache):
 
     t = ctx.tape
     rtol = 1e-6 if iterative else 0.0
+    cache_tol = float(getattr(d.cache, "tolerance", 0.0) or 0.0) if d.cache is not None else 0.0
+    if cache_tol:
+        # within its tolerance a cache may serve the data of a neighbouring stored input, or compute for the given one:
+        # which one depends on what either side stored before (a file cache is shared by both sides)
+        rtol = max(rtol, 10 * cache_tol)
     n_pre = t.randint(0, 4, "n_prefix")
     prefix = [(t.pick(["exec", "lin", "exec", "lin", "make_optional", "set_default", "fd_mode"], f"pre_kind[{i}]"), t.choice(len(inputs), f"pre_in[{i}]")) for i in range(n_pre)]
     if iterative or label.startswith(("process:", "discipline:factory:", "discipline:wrapper:")):
